@@ -73,7 +73,8 @@ def run_tlc(module, cfg, workers, timeout, metadir, env_extra=None, jopts="", ex
     env["JAVA_TOOL_OPTIONS"] = java_opts(jopts)
     if env_extra:
         env.update(env_extra)
-    cmd = ["timeout", str(timeout), "tlc", "-workers", str(workers), "-metadir", metadir, "-cleanup",
+    # -checkpoint 0: TLC checkpoints every 30 minutes by default and the StateDeque queue of the trace runs cannot (it aborts the run)
+    cmd = ["timeout", str(timeout), "tlc", "-workers", str(workers), "-metadir", metadir, "-cleanup", "-checkpoint", "0",
            "-noGenerateSpecTE", "-config", cfg, *extra_args, module]
     t0 = time.time()
     p = subprocess.run(cmd, cwd=MC, env=env, stdout=subprocess.PIPE, stderr=subprocess.STDOUT, text=True)
